@@ -1,5 +1,9 @@
 #!/bin/bash
-# usage: run_suite.sh <dir> <njobs> : runs the pinned suite in <dir> (a checkout of /repo), summary in <dir>/../<name>.suite.log
+# usage: run_suite.sh <dir> <njobs> : runs the pinned suite (unedited) in <dir> (a checkout of /repo);
+# summary line and exit status go to /tmp/<basename>.suite.log
 d=$1; n=${2:-5}
-cd "$d" && PYTHONPATH="$d" /venv/bin/python -m pytest -q -p no:cacheprovider --timeout=900 --continue-on-collection-errors -n "$n" -x -q 2>&1 | tail -15 > "/tmp/$(basename $d).suite.log"
-echo "exit=$?" >> "/tmp/$(basename $d).suite.log"
+out="/tmp/$(basename $d).suite.full"
+cd "$d" && PYTHONPATH="$d" /venv/bin/python -m pytest -q -p no:cacheprovider --timeout=900 --continue-on-collection-errors --disable-warnings -n "$n" > "$out" 2>&1
+rc=$?
+{ grep -E "passed|failed|error" "$out" | tail -5; echo "pytest_exit=$rc"; } > "/tmp/$(basename $d).suite.log"
+rm -f "$out"
